@@ -618,6 +618,9 @@ type source struct {
 	faulted   bool
 	inst      int
 	g         *gate
+	// faultBigAt > 0: the fault hits the faultBigAt-th Read of more than 8 bytes instead of a given call index
+	faultBigAt int
+	nBig       int
 }
 
 func (s *source) Read(p []byte) (int, error) {
@@ -625,6 +628,12 @@ func (s *source) Read(p []byte) (int, error) {
 	s.nReads++
 	if s.g != nil {
 		s.g.wait(s.inst)
+	}
+	if s.faultBigAt > 0 && len(p) > 8 { // count only the reads of more than 8 bytes (page bodies, footer): fail the faultBigAt-th of them
+		s.nBig++
+		if s.nBig == s.faultBigAt {
+			s.faultAt, s.faultBigAt = s.nCalls, 0
+		}
 	}
 	if s.faultAt > 0 && (s.nCalls == s.faultAt || (s.sticky && s.nCalls > s.faultAt)) {
 		s.faulted = true
